@@ -7,6 +7,9 @@ import extract_loc
 
 RIDS = ["r1", "r2", "r3"]
 
+def mkwhen(rng):
+    return {"when": {"pattern": {"go": "?x"}}}
+
 def mkrule(rng, key):
     if rng.random() < 0.2:
         # a scheduled rule: never dispatched for events, only evaluated when the cron service triggers it
@@ -38,6 +41,13 @@ def gen_case(rng, thorough):
                 bad = {"when": {"pattern": {rng.choice(keys): "?x", "wants": [1, "x"]}}, "action": action(rng, 0)}
                 ops.append({"op": "addRule", "loc": loc, "id": rid, "rule": bad})
                 ops.append({"op": "event", "loc": "a", "event": {rng.choice(keys): 1}})
+            elif 0.18 <= z < 0.26 and "when" in ops[-1]["rule"]:
+                # the rule is added again with the same `when` up to the name of its variable (what an edited rule often is): one rule,
+                # dispatched once, with the new variable
+                again = json.loads(json.dumps(ops[-1]["rule"]).replace('"?x"', '"?renamed"'))
+                key = list(again["when"]["pattern"].keys())[0]
+                ops.append({"op": "addRule", "loc": loc, "id": rid, "rule": again})
+                ops.append({"op": "event", "loc": loc, "event": {key: 1}})
             elif z < 0.18:
                 # the `disabled` flag written as a plain property fact (no deleteWith, as older storage content has it): the rule's
                 # removal takes the flag with it, so a rule added again under that id is enabled
@@ -55,6 +65,16 @@ def gen_case(rng, thorough):
         elif r < 0.72: ops.append({"op": "listRules", "loc": "a", "inherited": True})
         elif r < 0.80: ops.append({"op": "event", "loc": rng.choice(locs), "event": {"trigger!": rid}})      # what the cron service sends when a scheduled rule is due
         else: ops.append({"op": "event", "loc": "a", "event": {rng.choice(keys): rng.choice([1, "v"])}})
+    if rng.random() < 0.3:
+        # directed: a scheduled rule (no `when`; evaluated only when the cron service names it in `trigger!`) that is disabled when its
+        # tick arrives does not run; enabled again it runs. Also for a rule with a `when`, named by a trigger that carries matching data.
+        loc = rng.choice(locs); rid = rng.choice(RIDS)
+        sched = {"schedule": rng.choice(["* * * * *", "+1h", "0 0 1 1 *"]), "action": action(rng, 0)}
+        both = dict(mkwhen(rng), action=action(rng, 0))
+        rule = sched if rng.random() < 0.7 else both
+        ev = {"trigger!": rid, "go": 1}
+        ops += [{"op": "addRule", "loc": loc, "id": rid, "rule": rule}, {"op": "enableRule", "loc": loc, "id": rid, "enable": False},
+                {"op": "event", "loc": loc, "event": dict(ev)}, {"op": "enableRule", "loc": loc, "id": rid, "enable": True}, {"op": "event", "loc": loc, "event": dict(ev)}]
     if rng.random() < 0.3:
         # a disabled location: no rule fires and every operation reports it
         ops.append({"op": "addFact", "loc": "a", "id": "", "fact": {"!enabled": "no"}})
